@@ -708,6 +708,11 @@ func (k *Kernel) Accept(fd int) (int, [4]byte, int, syscall.Errno) {
 	default:
 		return -1, zero, 0, syscall.ENOTSOCK
 	}
+	if k.nOpen >= k.FdLimit {
+		// accept4 reserves the descriptor number before it looks at the queue
+		w.Stat(statEMFILE)
+		return -1, zero, 0, syscall.EMFILE
+	}
 	for len(f.lis.queue) == 0 {
 		if f.nonblock {
 			return -1, zero, 0, syscall.EAGAIN
